@@ -87,6 +87,9 @@ def flows():
         lambda t, x: 0.6 * g + 0.5 * x[0] * La + 0.5 * x[2] * Lc,
         lambda t: np.array([np.cos(0.7 * t), 0.0, np.sin(0.7 * t)]),
     )
+    # periodic in time with period 1/2: the gradient takes exactly the same value at t = 0, 1/2, 1, ...
+    # (an update over a whole number of periods sees equal values at its start, middle and end)
+    out["per"] = Flow("per", lambda t, x: 0.8 * np.cos(4.0 * np.pi * t) * La + 0.4 * Lb, lambda t: np.zeros(3))
     out["zero"] = _const_flow("zero", np.zeros((3, 3)))
     rg = np.zeros((3, 3))
     rg[0, 2], rg[2, 0] = 1.0, -1.0
